@@ -644,10 +644,8 @@ func runC16(c *Ctx) {
 		"on hash-map representations programs that iterate the argument map are order dependent: a disagreement is only reported if both functions are self-consistent over 6 evaluations")
 	env := newC16Env()
 	n := c.Pick(6000, 80000)
-	if os.Getenv("VERIF_REPLAY") == "" {
-		c16Histories(c, c.Pick(400, 4000))
-		c16LeanGenerators(c)
-	}
+	c16Histories(c, c.Pick(400, 4000))
+	c16LeanGenerators(c)
 	maxDepth := c.Pick(6, 7)
 
 	var cases []*c16Case
